@@ -205,7 +205,10 @@ PROPS = {
 #: directly builds on): every definition of these files is pinned (extract/gen_pins.py, Props/Pin_<key>.lean)
 PINS = {
     'C01': ['loop', 'waitq', 'timing', 'notification', 'context', 'init'],
-    'C02': ['loop', 'waitq', 'notification', 'tracked', 'condition'],
+    # (determinism can be lost anywhere - an `assert` with a side effect in pipe.py, a weak cache in _resource_level.py: C02 pins
+    #  every definition of every file of the native API)
+    'C02': ['loop', 'waitq', 'notification', 'tracked', 'condition', 'handler', 'timing', 'flag', 'context', 'task', 'concurrent_exception',
+            'locks', 'streams', 'resource', 'resource_level', 'pipe', 'basics', 'init'],
     'C03': ['loop', 'notification', 'condition', 'timing', 'task', 'context'],
     'C04': ['context', 'task'],
     'C05': ['context', 'task', 'concurrent_exception'],
